@@ -2,7 +2,7 @@
    tokenising, decimal integers, the size line, the reads of the declared header
    size, and the field loop. *)
 From Coq Require Import ZArith List Bool Lia.
-From Verif Require Import lib.C12_Py lib.C12_ZList gen.Sphere C12.Model.
+From Verif Require Import lib.C12_Py lib.C12_ZList gen.Sphere C12.Model C12.Spec.
 Import ListNotations.
 Open Scope Z_scope.
 
